@@ -29,7 +29,7 @@ ASSUMPTIONS = [
 REAL_VS_STUB = {"real": ["stackscope incl. ctypes frame reads", "real threads, real GIL hand-over at blocking calls", "sys.monitoring / sys.settrace instrumentation of stackscope's own code objects"],
                 "seam": ["stackscope._lowlevel_cpython_310.ctypes (module global) replaced by a pass-through stand-in that judges py_object casts and notes slot reads; nothing in /repo is changed"],
                 "stub": ["generated sync programs", "controller deciding every hand-over", "shadow managers"]}
-RARE_PROBES = ["ident_reused", "loop_template_targets", "retry_loop_taken", "snapshot_rejected", "target_frame_returned_during_inspect", "thread_exited_during_extract", "unstarted_checked", "finished_checked", "preempt_yields", "targeted_handovers", "static_depth_self_checks"]
+RARE_PROBES = ["ident_reused", "loop_template_targets", "retry_loop_taken", "snapshot_rejected", "target_frame_returned_during_inspect", "thread_exited_during_extract", "unstarted_checked", "finished_checked", "preempt_yields", "targeted_handovers", "static_depth_self_checks", "blocked_generator_like_frames_checked", "blocked_frames_with_async_contexts"]
 LEGS = [
     {"name": "blocked312", "python": "3.12", "quick": 500, "thorough": 15000, "quick_s": 50, "thorough_s": 400, "run_timeout": 120, "crash_is_violation": True, "params": {"mode": "blocked"}},
     {"name": "blocked311", "python": "3.11", "quick": 250, "thorough": 6000, "quick_s": 40, "thorough_s": 300, "run_timeout": 120, "crash_is_violation": True, "params": {"mode": "blocked"}},
@@ -263,6 +263,10 @@ def compare_blocked(ctx, tg, st):
         rec = W.rec_of(f.pyframe)
         if rec is not None:
             observe.compare_exact(W, rec, f.contexts, "c07", "blocked thread %s" % tg.name)
+            if f.pyframe.f_code.co_flags & 0x1A0:  # generator / coroutine / async generator code
+                ctx.stat("blocked_generator_like_frames_checked")
+                if any(c.is_async for c in f.contexts):
+                    ctx.stat("blocked_frames_with_async_contexts")
     for f in st.frames:
         if f.funcname in ("_bootstrap", "_bootstrap_inner", "run") and f.filename.endswith("threading.py") and not f.hide:
             raise Violation("c07_bootstrap_not_hidden", "thread bootstrap frame %s not hidden" % f.funcname, {})
